@@ -87,6 +87,26 @@ def make_spec(seed):
     return spec
 
 
+def directed_specs():
+    """Hand-written edge cases run on every invocation: a deadlock that forms at time exactly 0 (first arrival at 0, zero-length
+    service, the only place of the node taken by the customer itself), alone and next to a tandem line that blocks without ever
+    deadlocking; the same in exact arithmetic; a deadlock closed through an infinite-server relay that is not part of it."""
+    out = []
+    z = {'d': 'seq', 's': [0.0, 1.0, 1.0]}
+    def sp(name, n, arr, srv, rt, servers, qcaps, **kw):
+        d = dict(seed=7, name=name, n=n, classes=['C0'], arrivals={'C0': arr}, services={'C0': srv}, routing={'C0': rt}, servers=servers, qcaps=qcaps,
+                 priorities=None, tracker='NaiveBlocking', lattice=True, disciplines=['FIFO'] * n, exact=False, tie='native')
+        d.update(kw); return d
+    det = lambda v: {'d': 'det', 'v': v}
+    out.append(sp('deadlock_at_time_zero', 1, [z], [det(0.0)], [[1.0]], [1], [0]))
+    out.append(sp('deadlock_at_time_zero_exact', 1, [z], [det(0.0)], [[1.0]], [1], [0], exact=20))
+    out.append(sp('deadlock_at_time_zero_beside_a_blocking_line', 3, [z, det(0.75), None], [det(0.0), det(0.5), det(1.5)],
+                  [[1.0, 0.0, 0.0], [0.0, 0.0, 1.0], [0.0, 0.0, 0.0]], [1, 1, 1], [0, 1, 0], tracker='MatrixBlocking'))
+    out.append(sp('ring_through_three_nodes', 3, [det(1.0), None, None], [det(0.5), det(0.5), det(0.5)],
+                  [[0.0, 1.0, 0.0], [0.0, 0.0, 1.0], [1.0, 0.0, 0.0]], [1, 1, 1], [0, 0, 0], tracker='NodePopulation'))
+    return out
+
+
 def build(spec):
     kw = dict(arrival_distributions={c: [gen.make_dist(d) for d in spec['arrivals'][c]] for c in spec['classes']},
               service_distributions={c: [gen.make_dist(d) for d in spec['services'][c]] for c in spec['classes']},
@@ -157,6 +177,7 @@ def main(tier, vseed, replay=None):
         jobs = [payload['job']]
     else:
         jobs = [{'seed': vseed * 1000003 + k} for k in range(runs)]
+        jobs += [{'seed': 7, 'spec': sp_} for sp_ in directed_specs()]
     results, failures = runner.run_shards('ciwmon.special.c18', jobs, {'cap': cap}, 900 if tier == 'quick' else 4 * 3600)
     for r in results:
         if 'harness_error' in r:
